@@ -37,6 +37,12 @@ QUICK_NS = [1, 2, 3, 4, 5, 7, 10, 13, 20, 31, 50, 100, 199, 300]
 LARGE_NS = [1100, 1500, 2000]
 LARGE_COVS = [0.5, 0.9, 0.99]
 COVS = [0.0, 1e-9, 1e-6, 1e-3, 0.1, 0.5, 0.9, 0.95, 0.99, 1 - 1e-3, 1 - 1e-6, 1 - 1e-9, 1.0]
+# coverages next to 1 asked for BY THEMSELVES (scalar calls / arrays holding nothing else): the number of bisection steps of the
+# highest-density interval is taken from the widest bracket of the whole call, so a near-1 coverage that shares an array with
+# a moderate one is resolved far below the stopping tolerance and says nothing about what a caller asking for it alone gets
+NEAR1_COVS = [1 - 1e-9, 1 - 1e-8, 1 - 1e-7, 1 - 1e-6, 1 - 1e-5]
+NEAR1_PAIRS = [(2, 2), (2, 3), (3, 2), (2, 10), (10, 2), (3, 7), (7, 3), (5, 5), (2, 50), (50, 2), (3, 100), (20, 20), (1, 5), (5, 1)]
+NEAR1_LARGE = [(2, 1999), (1999, 2), (1000, 1001), (2, 999), (500, 1501)]
 
 
 def g(tok):
@@ -65,13 +71,25 @@ def safe_float(q):
         return float("inf") if q > 0 else float("-inf")
 
 
-def hdi_finding_key(c, shorter_by=None):
-    """the bisection stops when the bracket of the lower end point is below atol=1e-10; when the coverage is within
-    1e-6 of 1 one end point sits where the density changes by orders of magnitude within 1e-10, and the error of that
-    end point is amplified into the other one by the density ratio."""
-    if shorter_by is not None and float(shorter_by) > 1e-7:
-        return None   # the recorded mechanism loses at most ~1e-8; anything larger is a different defect
-    return HDI_FINDING if (c < 1.0 and 1.0 - c <= 1e-6) else None
+HDI_FINDING_MAX_ONE_MINUS_C = 1e-8
+HDI_FINDING_CAP = 1.5e-8
+
+
+def hdi_finding_key(a, b, c, shorter_by):
+    """the bisection stops when the bracket of the lower end point is below atol=1e-10; when the coverage is within 1e-8 of 1
+    and the density is linear at an end of the support (a = 2 or b = 2) one end point sits within ~1e-9 of that end, where the
+    density changes by a factor within 1e-10, and the error of that end point is amplified into the other one by the density
+    ratio: for a = 2 the excess is (atol^2 / 2) / x*, x* the true lower end point (1.02e-8 for (2, 1999, 1-1e-9)).
+
+    Measured on the unchanged tree (scalar and array calls, 8560 (a, b, c) with n = a+b-1 in 2..2000, i in {1..5, n-3..n,
+    n/4, n/2, random}, 1-c in {1e-9, 2e-9, 5e-9, 1e-8, 1e-7, 1e-6, random 1e-9..1e-5}): 30 intervals not shortest within
+    1e-9, all with min(a, b) = 2 and 1-c <= 5e-9, the largest excess 7.77e-9 at (2, 1999, 1-1e-9), then 3.8e-9 (2, 999),
+    2.6e-9 (2, 1499), <= 1.3e-9 for (19..59, 2).  The key covers exactly that region with a cap of 1.5e-8 (twice the largest
+    measured, 1.5 x the analytic bound at the end of the property's range); anything larger, or anywhere else, is a different
+    defect and stays an un-keyed violation."""
+    if not (float(shorter_by) <= HDI_FINDING_CAP):
+        return None
+    return HDI_FINDING if (min(a, b) == 2 and c < 1.0 and 1.0 - c <= HDI_FINDING_MAX_ONE_MINUS_C) else None
 
 
 # ---------------------------------------------------------------- exact helpers (untrusted proposals only)
@@ -340,6 +358,80 @@ def run(seed, tier, replay=None):
             else:
                 add("beta.hdcov", f"{a} {b} 60 {C.flist(xs)}", kind="hdcov", a=a, b=b, xs=xs, impl=hcov)
 
+        # ---- coverages next to 1 asked for by themselves, for small and skewed (a, b) (every tier): one scalar call per coverage,
+        # one array call holding only such coverages, and one call with (a, b) arrays and a single scalar coverage.  Judged like
+        # every other highest-density interval: exact mass and the verified optimality certificate / exact shorter witness.
+        nrng = C.rng_for("C15.near1", seed)      # own generator: the strata below draw what they drew before
+        near_pairs = list(NEAR1_PAIRS)
+        for _ in range(5 if tier == "quick" else 40):
+            n = nrng.randint(3, 300)
+            i = nrng.choice([2, n - 1, nrng.randint(1, n), nrng.randint(1, n)])
+            near_pairs.append((i, n + 1 - i))
+        near_pairs += [nrng.choice(NEAR1_LARGE)] if tier == "quick" else list(NEAR1_LARGE)
+
+        def add_hdi(a, b, c, x, y, call, mode, extra):
+            x, y = float(x), float(y)
+            inp = dict(a=a, b=b, coverage=c, coverage_hex=C.fhex(c), call_mode=mode, **extra)
+            if not (0.0 <= x <= 1.0 and 0.0 <= y <= 1.0):
+                rep.violate(what="highest-density end points outside [0,1] (or nan)", input=inp, observed=[x, y], call=call)
+                return
+            add("beta.check_hdi", f"{a} {b} {C.fhex(c)} {C.fhex(x)} {C.fhex(y)} {tol(TOL_MASS)} {tol(TOL_ORDER)} {tol(TOL_LEN)} {tol(W0)}",
+                kind="hdi", inp=inp, call=call, x=x, y=y, c=c, a=a, b=b, mode=mode)
+
+        for (a, b) in near_pairs:
+            if a == 1 and b == 1:
+                continue
+            large = a + b - 1 > 400
+            covs = [float(c) for c in NEAR1_COVS + [1 - 10 ** nrng.uniform(-9, -8), 1 - 10 ** nrng.uniform(-9, -5)]]
+            if large:
+                covs = [covs[0], covs[nrng.randint(1, 3)], covs[-1]]
+            rep.count("near1_pairs:%s" % ("a_or_b=1" if min(a, b) == 1 else "min(a,b)=2" if min(a, b) == 2 else
+                                          "symmetric" if a == b else "large" if large else "other"))
+            for c in covs:
+                rep.count("near1_scalar_call:1-c=1e%d" % math.floor(math.log10(1 - c) + 0.01))
+                call = f"beta_highest_density_interval({a}, {b}, {c!r})"
+                try:
+                    x, y = util.beta_highest_density_interval(a, b, c)
+                except Exception as e:  # noqa: BLE001
+                    rep.violate(what="beta_highest_density_interval raised on valid arguments", input=dict(a=a, b=b, coverage=c),
+                                error=repr(e), call=call)
+                    continue
+                if np.shape(x) != () or np.shape(y) != ():
+                    rep.violate(what="beta_highest_density_interval of scalars is not a pair of scalars", input=dict(a=a, b=b, coverage=c), call=call)
+                    continue
+                add_hdi(a, b, c, x, y, call, "scalar", {})
+            if not large:
+                rep.count("near1_array_call_of_near1_coverages_only")
+                call = f"beta_highest_density_interval({a}, {b}, np.array({covs!r}))"
+                try:
+                    xs_, ys_ = util.beta_highest_density_interval(a, b, np.array(covs))
+                except Exception as e:  # noqa: BLE001
+                    rep.violate(what="beta_highest_density_interval raised on valid arguments", input=dict(a=a, b=b, coverage=covs),
+                                error=repr(e), call=call)
+                    continue
+                if np.shape(xs_) != (len(covs),) or np.shape(ys_) != (len(covs),):
+                    rep.violate(what="beta_highest_density_interval does not broadcast", input=dict(a=a, b=b, coverage=covs), call=call)
+                    continue
+                for j, c in enumerate(covs):
+                    add_hdi(a, b, c, xs_[j], ys_[j], call + f"  # element {j}", "array_of_near1_coverages", dict(all_coverages=covs))
+        # (a, b) arrays with ONE scalar coverage next to 1
+        small = [p_ for p_ in near_pairs if p_[0] + p_[1] - 1 <= 400 and p_ != (1, 1)]
+        for c in [float(c_) for c_ in (NEAR1_COVS if tier != "quick" else [NEAR1_COVS[0], nrng.choice(NEAR1_COVS[1:]), 1 - 10 ** nrng.uniform(-9, -5)])]:
+            grp = nrng.sample(small, 4)
+            A, B = [p_[0] for p_ in grp], [p_[1] for p_ in grp]
+            rep.count("near1_ab_arrays_with_one_scalar_coverage")
+            call = f"beta_highest_density_interval(np.array({A}), np.array({B}), {c!r})"
+            try:
+                xs_, ys_ = util.beta_highest_density_interval(np.array(A), np.array(B), c)
+            except Exception as e:  # noqa: BLE001
+                rep.violate(what="beta_highest_density_interval raised on valid arguments", input=dict(a=A, b=B, coverage=c), error=repr(e), call=call)
+                continue
+            if np.shape(xs_) != (4,) or np.shape(ys_) != (4,):
+                rep.violate(what="beta_highest_density_interval does not broadcast", input=dict(a=A, b=B, coverage=c), call=call)
+                continue
+            for j, (a, b) in enumerate(grp):
+                add_hdi(a, b, c, xs_[j], ys_[j], call + f"  # element {j}", "ab_arrays_scalar_coverage", dict(A=A, B=B))
+
         # ---- broadcasting of all four over (a,b) arrays x coverage / x arrays, and scalars
         for it in range(8 if tier == "quick" else 60):
             # the same positive integers in another container: a Python-int list or an integer ndarray of any width that holds
@@ -449,7 +541,7 @@ def run(seed, tier, replay=None):
         elif kind == "hdi":
             massok, certok, dm, M = r[0] == "1", r[1] == "1", g(r[2]), g(r[3])
             a, b, c, x, y = mt["a"], mt["b"], mt["c"], mt["x"], mt["y"]
-            rep.case(("hdi", a, b, c), sample=dict(op="beta_highest_density_interval", a=a, b=b, coverage=c, x=x, y=y,
+            rep.case(("hdi", a, b, c) + ((mt["mode"],) if mt.get("mode") else ()), sample=dict(op="beta_highest_density_interval", a=a, b=b, coverage=c, x=x, y=y,
                                                    exact_mass_minus_c=float(dm), certified_by_simple_search=certok))
             if not massok:
                 what = ("x <= y (up to 1e-12) fails" if not x <= y + 1e-12 else
@@ -540,7 +632,7 @@ def run(seed, tier, replay=None):
             rep.count("hdi_certified_by_proposed_level_set")
             continue
         if witness:
-            key = hdi_finding_key(c, (y - x) - (y1 - x1))
+            key = hdi_finding_key(a, b, c, (y - x) - (y1 - x1))
             violate(rep, what="highest-density interval: an interval of at least the same (exact) mass is shorter by more than 1e-9",
                         input=mt["inp"], observed=dict(x=x, y=y, length=y - x),
                         shorter_interval=dict(u=x1, v=y1, length=y1 - x1, shorter_by=(y - x) - (y1 - x1)),
@@ -555,6 +647,9 @@ def run(seed, tier, replay=None):
              "1-1e-6,1-1e-9,1,random x3}; plus, in every tier, n in {1100,1500,2000} x i in {1,n/4,n/2,3n/4,n} x coverages "
              "{.5,.9,.99} (all four helpers, exact; thorough adds a random n in 1001..2000, i in {2,n-1,random} and the extreme "
              "coverages); x grids {0,1,mode and neighbours,median,1e-12,1-1e-12,.5,random, normal around the mean}. "
+             "Highest-density intervals also for coverages next to 1 asked for BY THEMSELVES (1-1e-9, 1-1e-8, 1-1e-7, 1-1e-6, 1-1e-5, "
+             "random 1-1e-9..1-1e-5): one scalar call per coverage, one array of only such coverages, (a,b) arrays with one scalar "
+             "coverage, for 14 small / skewed (a,b), random (i, n+1-i) with n <= 300 and one (quick) or five (thorough) large pairs. "
              "A case is one exact check of one returned value (interval, inverse relation at one end point, coverage value, "
              "monotonicity of one grid, one broadcast call); distinct by hash of (kind, a, b, argument).",
         extra=dict(driver_lines=drv.lines))
